@@ -285,3 +285,51 @@ def rule_no_ambient_nondeterminism(ck, repo, R):
     ck.count('nondeterministic calls seen', n)
     # positive control: the rule must see the known calls
     ck.require(n >= 5, f'only {n} random()/uuid4()/shuffle() calls seen; 6 are known on the pinned tree')
+
+
+# ---- breadth-first distance labels ----------------------------------------------------------------------------------------------------------
+def level_worklists(fn):
+    """
+    while Q: x, d = Q.pop(..) ; for m in <undiscovered by L>: Q.append((m, f(d))); L[m] = g(d)
+    -> (loop, Q, level var, label dict L, pop call)
+    """
+    out = []
+    for loop in ast.walk(fn):
+        if not (isinstance(loop, ast.While) and isinstance(loop.test, ast.Name) and loop.body):
+            continue
+        q = loop.test.id
+        first = loop.body[0]
+        if not (isinstance(first, ast.Assign) and isinstance(first.value, ast.Call) and isinstance(first.value.func, ast.Attribute) and
+                isinstance(first.value.func.value, ast.Name) and first.value.func.value.id == q and first.value.func.attr in ('pop', 'popleft')):
+            continue
+        tgt = first.targets[0]
+        if not (isinstance(tgt, ast.Tuple) and all(isinstance(e, ast.Name) for e in tgt.elts)):
+            continue
+        names = [e.id for e in tgt.elts]
+        for lv in names[1:]:
+            pushes = [n for n in ast.walk(loop) if isinstance(n, ast.Call) and isinstance(n.func, ast.Attribute) and n.func.attr in ('append', 'extend') and
+                      isinstance(n.func.value, ast.Name) and n.func.value.id == q and any(isinstance(x, ast.Name) and x.id == lv for x in ast.walk(n))]
+            labels = [n for n in ast.walk(loop) if isinstance(n, ast.Assign) and isinstance(n.targets[0], ast.Subscript) and isinstance(n.targets[0].value, ast.Name) and
+                      any(isinstance(x, ast.Name) and x.id == lv for x in ast.walk(n.value))]
+            if pushes and labels:
+                out.append((loop, q, lv, labels[0].targets[0].value.id, first.value))
+    return out
+
+
+def rule_bfs_distance(ck, repo, R, select, floor):
+    ck.rule(R, 'a worklist that labels every newly discovered atom with a level derived from the level of the popped atom (seen[m] = d; push (m, d+1)) '
+               'computes graph distances only if it is first-in-first-out (pop(0) / popleft()); popped from the tail it records the depth along an '
+               'arbitrary, numbering-dependent path. The canonical writer uses these labels as a tie-breaker between equivalent neighbours')
+    n = 0
+    for f in repo.all_functions():
+        if not select(f):
+            continue
+        for loop, q, lv, lab, pop in level_worklists(f.node):
+            n += 1
+            fifo = pop.func.attr == 'popleft' or (pop.func.attr == 'pop' and len(pop.args) == 1 and isinstance(pop.args[0], ast.Constant) and pop.args[0].value == 0)
+            ck.decide(fifo, R, f'{f.fq}:{q}->{lab}', f'`{src(pop)}` is FIFO',
+                      f'{f.qualname}: the worklist `{q}` labels discovered atoms in `{lab}` with the level `{lv}` but is popped with `{src(pop)}` (last-in-first-out): '
+                      f'`{lab}` is no longer the distance from the start atom but depends on the iteration order of the neighbour sets, i.e. on atom numbers',
+                      file=f.file, line=pop.lineno, func=f.qualname, construct=src(pop))
+    ck.count(f'{R}: level-labelling worklists', n)
+    ck.floor(R, floor)
